@@ -126,21 +126,27 @@ def r1_placement(a, tier):
         if isinstance(n, ast.Assign) and norm(n.targets[0]) == 'self.is_tokn':
             expr_post = n.value
     new = a.p.func('tatsu.contexts.infos.RuleInfo.new')
-    expr_new = None
-    for n in walk_no_defs(new.node):
-        if isinstance(n, ast.Assign) and norm(n.targets[0]) == 'is_tokn':
-            expr_new = n.value
-    if expr_post is None or expr_new is None:
-        raise AnalysisError('is_tokn derivation not found in Rule.__post_init__ / RuleInfo.new')
+    if expr_post is None:
+        raise AnalysisError('is_tokn derivation not found in Rule.__post_init__')
+    from ..modelinterp import Hook, ModelInterp, Stub
     for nm, want in names.items():
-        for where, e, env in (('Rule.__post_init__', expr_post, {'self': Obj(is_tokn=False, name=nm)}),
-                              ('RuleInfo.new', expr_new, {'name': nm})):
-            got = bool(MiniEval({}).expr(e, env))
-            rep.add({'is_tokn': where, 'rule_name': nm, 'got': got, 'want': want})
-            if got != want:
-                rep.fail('tatsu.peg.base.Rule.__post_init__' if where.startswith('Rule') else new.qualname, f'is_tokn:{nm}',
-                         f'{where}: rule name {nm!r} -> is_tokn={got}, documented: {want} (first cased character upper-case)',
-                         post.loc if where.startswith('Rule') else new.loc)
+        got = bool(MiniEval({}).expr(expr_post, {'self': Obj(is_tokn=False, name=nm)}))
+        rep.add({'is_tokn': 'Rule.__post_init__', 'rule_name': nm, 'got': got, 'want': want})
+        if got != want:
+            rep.fail(post.qualname, f'is_tokn:{nm}', f'Rule.__post_init__: rule name {nm!r} -> is_tokn={got}, documented: {want} '
+                     f'(first cased character upper-case)', post.loc)
+        # RuleInfo.new (generated parsers: the rule is a method), interpreted with a stand-in function object named nm
+        seen = {}
+        func = Stub('tatsu.contexts.infos.CommentInfo', **{'__name__': nm})
+        try:
+            ModelInterp(a, {'RuleInfo': Hook(lambda **kw: seen.update(kw))}).call_fn(new, [None, func])
+        except Unsupported as e:
+            raise AnalysisError(f'cannot interpret RuleInfo.new: {e}') from e
+        got = bool(seen.get('is_tokn'))
+        rep.add({'is_tokn': 'RuleInfo.new', 'rule_name': nm, 'got': got, 'want': want})
+        if got != want or seen.get('name') != nm:
+            rep.fail(new.qualname, f'is_tokn:{nm}', f'RuleInfo.new: a rule method named {nm!r} gets name={seen.get("name")!r}, is_tokn={got}; '
+                     f'documented: is_tokn={want} (first cased character upper-case)', new.loc)
     # RuleInfo.new default is used only when the function has no explicit attribute
     return rep
 
